@@ -1668,12 +1668,18 @@ fn core_word_begin(xs: &mut State) -> Xresult {
 }
 
 fn core_word_until(xs: &mut State) -> Xresult {
-    match xs.pop_flow() {
-        Some(Flow::Begin(begin_org)) => {
-            let offs = jump_offset(xs.code_origin(), begin_org);
-            xs.code_emit(Opcode::JumpIfNot(offs))
+    loop {
+        match xs.pop_flow() {
+            Some(Flow::Break(org)) => {
+                let offs = jump_offset(org, xs.code_origin() + 1);
+                xs.backpatch_jump(org, offs)?;
+            }
+            Some(Flow::Begin(begin_org)) => {
+                let offs = jump_offset(xs.code_origin(), begin_org);
+                break xs.code_emit(Opcode::JumpIfNot(offs));
+            }
+            _ => break Err(Xerr::unbalanced_until()),
         }
-        _ => Err(Xerr::unbalanced_until()),
     }
 }
 
@@ -1684,25 +1690,25 @@ fn core_word_while(xs: &mut State) -> Xresult {
 }
 
 fn core_word_repeat(xs: &mut State) -> Xresult {
+    let mut while_org = None;
     loop {
         match xs.pop_flow() {
             Some(Flow::Break(org)) => {
                 let offs = jump_offset(org, xs.code_origin() + 1);
                 xs.backpatch_jump(org, offs)?;
             }
+            Some(Flow::While(cond_org)) if while_org.is_none() => {
+                while_org = Some(cond_org);
+            }
             Some(Flow::Begin(begin_org)) => {
+                if let Some(cond_org) = while_org {
+                    let offs = jump_offset(cond_org, xs.code_origin() + 1);
+                    xs.backpatch_jump(cond_org, offs)?;
+                }
                 let offs = jump_offset(xs.code_origin(), begin_org);
                 break xs.code_emit(Opcode::Jump(offs));
             }
-            Some(Flow::While(cond_org)) => match xs.pop_flow() {
-                Some(Flow::Begin(begin_org)) => {
-                    let offs = jump_offset(cond_org, xs.code_origin() + 1);
-                    xs.backpatch_jump(cond_org, offs)?;
-                    let offs = jump_offset(xs.code_origin(), begin_org);
-                    break xs.code_emit(Opcode::Jump(offs));
-                }
-                _ => break Err(Xerr::unbalanced_while()),
-            },
+            _ if while_org.is_some() => break Err(Xerr::unbalanced_while()),
             _ => break Err(Xerr::unbalanced_repeat()),
         }
     }
